@@ -5,7 +5,7 @@ from __future__ import annotations
 import ast
 import copy
 
-from ..core.astutil import u, call_name, kwarg, walk_local, parent_map, names_in, inline_locals, stmts_local
+from ..core.astutil import u, call_name, kwarg, walk_local, parent_map, names_in, inline_locals, stmts_local, dotted
 from ..core.loader import AnchorError, Undecided
 from ..core.report import Ctx
 from ..core import cfg as cfgmod
@@ -31,15 +31,20 @@ META = {
         "representative writes all three arrays at `keep` before keep is advanced and the comparison window re-sliced; "
         "the twin index is the first hit. R5: ordering = argsort(new_2_old) is applied as a gather to unique_pts and "
         "new_2_old and as the INVERSE permutation to the entries of old_2_new, and those re-mapped values are the ones "
-        "returned. Not decided: numerical behaviour of the tolerance comparisons, ismember_columns/intersect_sets."),
+        "returned. R6 (intersect_sets): one KD-tree ball query, Euclidean (default p), radius tol, from the first set against "
+        "the second, both trees built from the transposed (column) inputs; ia = positions of non-empty hit lists, ib = their "
+        "contents, the mask has one entry per column of a and is set at ia, the hit list itself is returned. R7 "
+        "(ismember_columns): both sets prepared alike (sorted along axis 0 or raw), stacked [a | b] and the inverse map cut "
+        "after a's column count, mask = isin(ids of a, ids of b), index output = argsort(ids of b)[searchsorted(sorted ids "
+        "of b, ids of the member columns of a)]. Not decided: numerical behaviour of the tolerance comparisons."),
     "rule_text": "one obligation per clustering loop, per threshold/key/argument, per bookkeeping statement, per store, per output",
     "trusted_base": ["python ast", "sa.core (loader, astutil, cfg)", "reverse triangle inequality | ||x||-||y|| | <= ||x-y||"],
-    "assumptions": ["points are columns (axis 0 is the coordinate axis), as documented",
+    "assumptions": ["the normaliser applied to a copy of each anchored function (guard-continue -> if/else, one level of same-module helper inlining incl. early returns, c34.normalise) preserves behaviour", "points are columns (axis 0 is the coordinate axis), as documented",
                     "accepted sound pruning forms are: chained gap in a loop; np.diff of the sorted norms. Another sound "
                     "design (e.g. re-scanning a tol window across cluster borders) would be reported as undecided/finding"],
     "technique": "dataflow + CFG post-dominance on the clustering loop, alpha-renamed template matching of index expressions",
 }
-MIN_INSTANCES = {"R1": 1, "R2": 6, "R3": 14, "R4": 12, "R5": 4}
+MIN_INSTANCES = {"R1": 1, "R2": 6, "R3": 14, "R4": 12, "R5": 4, "R6": 9, "R7": 7}
 
 
 # ------------------------------------------------------------------------------------
@@ -88,8 +93,19 @@ def _norm_kind(e: ast.expr, pts: str) -> str:
     def is_abs(x) -> bool:
         return (_is_np(x, "abs") or _is_np(x, "absolute")) and x.args and u(x.args[0]) == pts
 
+    def reduce_of(x, fname):
+        """operand of np.<fname>(operand, axis=0) or of operand.<fname>(axis=0)"""
+        if not _is_np(x, fname):
+            return None
+        f = x.func
+        if isinstance(f, ast.Name) or (isinstance(f, ast.Attribute) and isinstance(f.value, ast.Name) and f.value.id in ("np", "numpy")):
+            return x.args[0] if x.args and axis0(x) else None
+        ax = kwarg(x, "axis") or (x.args[0] if x.args else None)
+        return f.value if isinstance(ax, ast.Constant) and ax.value == 0 else None
+
     def sumsq(x) -> bool:
-        return _is_np(x, "sum") and x.args and is_sq(x.args[0]) and axis0(x)
+        o = reduce_of(x, "sum")
+        return o is not None and is_sq(o)
     if _is_np(e, "sqrt") and e.args and sumsq(e.args[0]):
         return "l2"
     if isinstance(e, ast.BinOp) and isinstance(e.op, ast.Pow) and sumsq(e.left) and isinstance(e.right, ast.Constant) \
@@ -106,9 +122,10 @@ def _norm_kind(e: ast.expr, pts: str) -> str:
         return "unknown"
     if sumsq(e):
         return "l2-squared"
-    if _is_np(e, "sum") and e.args and is_abs(e.args[0]) and axis0(e):
+    o1, om = reduce_of(e, "sum"), reduce_of(e, "max")
+    if o1 is not None and is_abs(o1):
         return "l1"
-    if _is_np(e, "max") and e.args and is_abs(e.args[0]) and axis0(e):
+    if om is not None and is_abs(om):
         return "linf"
     return "unknown"
 
@@ -136,42 +153,463 @@ def _threshold_kind(e: ast.expr, tol: str) -> str:
     return "unknown"
 
 
-def _gap_compare(test: ast.expr, cur: str, tol: str):
-    """Recognise `abs(ref - cur) > T` / `cur - ref > T`; returns (ref_name, op, T) or None."""
+# ====================================================================================
+#  normaliser: behaviour-preserving rewrites applied to a COPY of an anchored function before
+#  the rules look at it (guard-continue -> if/else; one level of same-module helper inlining).
+#  Exported: the other rule modules of this family import it.
+# ====================================================================================
+
+def _fold_list(stmts: list[ast.stmt], tail: bool) -> bool:
+    """In a statement list in tail position of a loop body: `if c: A; continue` + REST  ->  `if c: A else: REST`."""
+    changed = False
+    i = 0
+    while i < len(stmts):
+        s = stmts[i]
+        if isinstance(s, (ast.For, ast.While, ast.AsyncFor)):
+            changed |= _fold_list(s.body, True)
+        elif isinstance(s, ast.If) and tail:
+            rest = stmts[i + 1:]
+            b_cont = bool(s.body) and isinstance(s.body[-1], ast.Continue)
+            o_cont = bool(s.orelse) and isinstance(s.orelse[-1], ast.Continue)
+            if b_cont and not o_cont and not any(isinstance(n, (ast.Break,)) for n in ast.walk(s)):
+                s.body = s.body[:-1] or [ast.copy_location(ast.Pass(), s)]
+                s.orelse = list(s.orelse) + rest
+                del stmts[i + 1:]
+                changed = True
+            elif o_cont and not b_cont:
+                s.orelse = s.orelse[:-1]
+                s.body = list(s.body) + rest
+                del stmts[i + 1:]
+                changed = True
+            if i == len(stmts) - 1:
+                changed |= _fold_list(s.body, True)
+                changed |= _fold_list(s.orelse, True)
+            else:
+                changed |= _fold_list(s.body, False)
+                changed |= _fold_list(s.orelse, False)
+        elif isinstance(s, (ast.If, ast.With, ast.Try)):
+            for blk in (getattr(s, "body", []), getattr(s, "orelse", []), getattr(s, "finalbody", [])):
+                changed |= _fold_list(blk, False)
+        i += 1
+    if tail and stmts and isinstance(stmts[-1], ast.Continue) and len(stmts) > 1:
+        stmts.pop()
+        changed = True
+    return changed
+
+
+def fold_guard_continue(fn: ast.AST) -> bool:
+    changed = False
+    for n in ast.walk(fn):
+        if isinstance(n, (ast.For, ast.While)) and not any(isinstance(x, ast.Break) for x in walk_local(n)):
+            changed |= _fold_list(n.body, True)
+    return changed
+
+
+def _callee(mod, cls, call: ast.Call):
+    f = call.func
+    if isinstance(f, ast.Name):
+        for st in mod.tree.body:
+            if isinstance(st, ast.FunctionDef) and st.name == f.id:
+                return st, False
+    if isinstance(f, ast.Attribute) and isinstance(f.value, ast.Name) and f.value.id == "self" and cls is not None:
+        for st in cls.body:
+            if isinstance(st, ast.FunctionDef) and st.name == f.attr and not any(
+                    u(d) in ("staticmethod", "classmethod", "property") for d in st.decorator_list):
+                return st, True
+    return None, False
+
+
+_RET = "ret__"
+
+
+def _terminates(stmts: list[ast.stmt]) -> bool:
+    if not stmts:
+        return False
+    last = stmts[-1]
+    if isinstance(last, ast.Return):
+        return True
+    if isinstance(last, ast.If):
+        return _terminates(last.body) and _terminates(last.orelse)
+    return False
+
+
+def _linearise_returns(stmts: list[ast.stmt], name: str) -> list[ast.stmt] | None:
+    """Rewrite a body with early returns (`if c: ...; return A` + rest) into nested if/else in which every
+    `return E` has become `name = E`.  None if a return sits inside a loop / try / with."""
+    out: list[ast.stmt] = []
+    for i, s in enumerate(stmts):
+        if isinstance(s, ast.Return):
+            out.append(ast.copy_location(ast.Assign(targets=[ast.Name(id=name, ctx=ast.Store())],
+                                                    value=s.value or ast.Constant(value=None)), s))
+            return out
+        if isinstance(s, ast.If) and any(isinstance(n, ast.Return) for n in ast.walk(s)):
+            rest = stmts[i + 1:]
+            body = _linearise_returns(s.body, name)
+            if body is None:
+                return None
+            if _terminates(s.body):
+                orelse = _linearise_returns(list(s.orelse) + rest, name)
+                if orelse is None:
+                    return None
+                out.append(ast.copy_location(ast.If(test=s.test, body=body, orelse=orelse), s))
+                return out
+            if _terminates(s.orelse):
+                orelse = _linearise_returns(s.orelse, name)
+                body2 = _linearise_returns(list(s.body) + rest, name)
+                if orelse is None or body2 is None:
+                    return None
+                out.append(ast.copy_location(ast.If(test=s.test, body=body2, orelse=orelse), s))
+                return out
+            return None  # a return on some but not all paths of a branch that also falls through: not handled
+        if any(isinstance(n, ast.Return) for n in ast.walk(s)):
+            return None
+        out.append(s)
+    return out
+
+
+def _inlinable_body(callee: ast.FunctionDef):
+    body = list(callee.body)
+    if body and isinstance(body[0], ast.Expr) and isinstance(body[0].value, ast.Constant) and isinstance(body[0].value.value, str):
+        body = body[1:]
+    if not body:
+        return None
+    a = callee.args
+    if a.vararg or a.kwarg or a.posonlyargs:
+        return None
+    rets = [n for n in walk_local(callee) if isinstance(n, ast.Return)]
+    if any(isinstance(n, (ast.Yield, ast.YieldFrom, ast.FunctionDef, ast.ClassDef, ast.Global, ast.Nonlocal)) for n in ast.walk(callee)
+           if n is not callee):
+        return None
+    if len(rets) > 1 or (len(rets) == 1 and rets[0] is not body[-1]):
+        if not _terminates(body):
+            return None
+        lin = _linearise_returns(copy.deepcopy(body), _RET)
+        if lin is None:
+            return None
+        return lin + [ast.Return(value=ast.Name(id=_RET, ctx=ast.Load()), lineno=body[-1].lineno, col_offset=0)]
+    return body
+
+
+def _assigned_names(node: ast.AST) -> set[str]:
+    out = set()
+    for n in ast.walk(node):
+        if isinstance(n, ast.Name) and isinstance(n.ctx, (ast.Store, ast.Del)):
+            out.add(n.id)
+    return out
+
+
+def inline_helpers(mod, fn: ast.FunctionDef, cls=None, exclude=frozenset()) -> bool:
+    """Replace `x = helper(args)` / `helper(args)` / `return helper(args)` by the helper's body (one level)."""
+    changed = False
+    caller_names = {n.id for n in ast.walk(fn) if isinstance(n, ast.Name)} | {a.arg for a in fn.args.args}
+
+    def expand(stmt: ast.stmt):
+        nonlocal changed
+        call = None
+        if isinstance(stmt, ast.Assign) and isinstance(stmt.value, ast.Call):
+            call = stmt.value
+        elif isinstance(stmt, (ast.Expr, ast.Return)) and isinstance(stmt.value, ast.Call):
+            call = stmt.value
+        if call is None:
+            return None
+        callee, is_method = _callee(mod, cls, call)
+        if callee is None or callee.name in exclude or callee.name == fn.name:
+            return None
+        body = _inlinable_body(callee)
+        if body is None or any(isinstance(x, ast.Starred) for x in call.args) or any(k.arg is None for k in call.keywords):
+            return None
+        params = [a.arg for a in callee.args.args] + [a.arg for a in callee.args.kwonlyargs]
+        bind: dict[str, ast.expr] = {}
+        pos = list(callee.args.args)
+        if is_method:
+            bind[pos[0].arg] = ast.Name(id="self", ctx=ast.Load())
+            pos = pos[1:]
+        if len(call.args) > len(pos):
+            return None
+        for prm, a in zip(pos, call.args):
+            bind[prm.arg] = a
+        for k in call.keywords:
+            if k.arg not in params or k.arg in bind:
+                return None
+            bind[k.arg] = k.value
+        defaults = dict(zip([a.arg for a in callee.args.args][len(callee.args.args) - len(callee.args.defaults):], callee.args.defaults))
+        for ka, kd in zip(callee.args.kwonlyargs, callee.args.kw_defaults):
+            if kd is not None:
+                defaults[ka.arg] = kd
+        for prm in params:
+            if prm not in bind:
+                if prm not in defaults:
+                    return None
+                bind[prm] = defaults[prm]
+        body = copy.deepcopy(body)
+        holder = ast.Module(body=body, type_ignores=[])
+        assigned = _assigned_names(holder)
+        prelude = []
+        rename: dict[str, str] = {}
+        direct: dict[str, ast.expr] = {}
+        for prm, a in bind.items():
+            simple = isinstance(a, (ast.Name, ast.Constant)) or (isinstance(a, ast.Attribute) and dotted(a) is not None)
+            if simple and prm not in assigned:
+                direct[prm] = a
+            else:
+                new = prm if prm not in caller_names else f"{prm}__{callee.name}"
+                rename[prm] = new
+                prelude.append(ast.Assign(targets=[ast.Name(id=new, ctx=ast.Store())], value=copy.deepcopy(a), lineno=stmt.lineno, col_offset=0))
+        for nm in assigned - set(bind):
+            if nm in caller_names:
+                rename[nm] = f"{nm}__{callee.name}"
+
+        class T(ast.NodeTransformer):
+            def visit_Name(self, n):
+                if n.id in direct and isinstance(n.ctx, ast.Load):
+                    return copy.deepcopy(direct[n.id])
+                if n.id in rename:
+                    n.id = rename[n.id]
+                return n
+        holder = T().visit(holder)
+        body = holder.body
+        ret = body[-1] if isinstance(body[-1], ast.Return) else None
+        if ret is not None:
+            body = body[:-1]
+            rv = ret.value if ret.value is not None else ast.Constant(value=None)
+            if isinstance(stmt, ast.Assign):
+                body.append(ast.Assign(targets=stmt.targets, value=rv, lineno=stmt.lineno, col_offset=0))
+            elif isinstance(stmt, ast.Return):
+                body.append(ast.Return(value=rv, lineno=stmt.lineno, col_offset=0))
+        elif isinstance(stmt, ast.Assign):
+            return None
+        changed = True
+        return prelude + body
+
+    def visit_block(stmts: list[ast.stmt]):
+        i = 0
+        while i < len(stmts):
+            s = stmts[i]
+            rep = expand(s)
+            if rep is not None:
+                stmts[i:i + 1] = rep
+                i += len(rep)
+                continue
+            for blk_name in ("body", "orelse", "finalbody"):
+                blk = getattr(s, blk_name, None)
+                if isinstance(blk, list) and not isinstance(s, (ast.FunctionDef, ast.ClassDef)):
+                    visit_block(blk)
+            for h in getattr(s, "handlers", []) or []:
+                visit_block(h.body)
+            i += 1
+    visit_block(fn.body)
+
+    # expression-level: calls of helpers whose whole body is `return <expr>` are replaced by that expression
+    class E(ast.NodeTransformer):
+        def visit_Call(self, call):
+            nonlocal changed
+            self.generic_visit(call)
+            callee, is_method = _callee(mod, cls, call)
+            if callee is None or callee.name in exclude or callee.name == fn.name:
+                return call
+            body = _inlinable_body(callee)
+            if body is None or len(body) != 1 or not isinstance(body[0], ast.Return) or body[0].value is None:
+                return call
+            if any(isinstance(x, ast.Starred) for x in call.args) or any(k.arg is None for k in call.keywords):
+                return call
+            pos = list(callee.args.args)
+            bind = {}
+            if is_method:
+                bind[pos[0].arg] = ast.Name(id="self", ctx=ast.Load())
+                pos = pos[1:]
+            if len(call.args) > len(pos):
+                return call
+            for prm, a in zip(pos, call.args):
+                bind[prm.arg] = a
+            names = [a.arg for a in callee.args.args] + [a.arg for a in callee.args.kwonlyargs]
+            for k in call.keywords:
+                if k.arg not in names or k.arg in bind:
+                    return call
+                bind[k.arg] = k.value
+            defaults = dict(zip([a.arg for a in callee.args.args][len(callee.args.args) - len(callee.args.defaults):], callee.args.defaults))
+            for prm in names:
+                if prm not in bind:
+                    if prm not in defaults:
+                        return call
+                    bind[prm] = defaults[prm]
+            # comprehension variables of the helper expression must not capture caller names
+            expr = copy.deepcopy(body[0].value)
+
+            class S(ast.NodeTransformer):
+                def visit_Name(self, n):
+                    if n.id in bind and isinstance(n.ctx, ast.Load):
+                        return copy.deepcopy(bind[n.id])
+                    return n
+            changed = True
+            return ast.copy_location(S().visit(expr), call)
+    E().visit(fn)
+    if changed:
+        ast.fix_missing_locations(fn)
+    return changed
+
+
+def _renumber(fn: ast.FunctionDef) -> None:
+    """Give statements consecutive line numbers in execution-text order (only after inlining)."""
+    counter = [fn.lineno + 1]
+
+    def block(stmts):
+        for s in stmts:
+            ln = counter[0]
+            counter[0] += 1
+            for n in ast.walk(s):
+                if hasattr(n, "lineno"):
+                    n.lineno = ln
+                    n.end_lineno = ln
+            for blk_name in ("body", "orelse", "finalbody"):
+                blk = getattr(s, blk_name, None)
+                if isinstance(blk, list) and blk and isinstance(blk[0], ast.stmt):
+                    block(blk)
+            for h in getattr(s, "handlers", []) or []:
+                h.lineno = counter[0]
+                block(h.body)
+            s.lineno = ln
+            s.end_lineno = counter[0] - 1
+    block(fn.body)
+    fn.end_lineno = counter[0]
+
+
+def normalise(mod, fn: ast.FunctionDef, cls=None, exclude=frozenset()) -> ast.FunctionDef:
+    """Copy of fn after the behaviour-preserving rewrites.  The original tree is never touched."""
+    fn2 = copy.deepcopy(fn)
+    inl = inline_helpers(mod, fn2, cls, frozenset(exclude))
+    fold_guard_continue(fn2)
+    if inl:
+        _renumber(fn2)
+    return fn2
+
+
+def _parse_frag(text: str):
+    try:
+        return ast.parse(f"_[{text}]" if (":" in text or text.startswith(",")) else text, mode="eval")
+    except SyntaxError:
+        return None
+
+
+def _verdict(text: str, accepted, vocab) -> bool | None:
+    """True: an accepted form.  False: a different expression built from the KNOWN role names with only the operations
+    that occur in the accepted forms (a genuinely different value).  None: anything else (unknown idiom -> undecided,
+    never a finding)."""
+    if text in accepted:
+        return True
+    tree = _parse_frag(text)
+    if tree is None:
+        return None
+    ok_attrs: set[str] = {"shape", "size"}
+    for a in accepted:
+        ta = _parse_frag(a)
+        if ta is not None:
+            ok_attrs |= {n.attr for n in ast.walk(ta) if isinstance(n, ast.Attribute)}
+    attrs = {n.attr for n in ast.walk(tree) if isinstance(n, ast.Attribute)}
+    names = {n.id for n in ast.walk(tree) if isinstance(n, ast.Name)} - {"_", "np", "len", "range", "int"}
+    if names <= set(vocab) and attrs <= ok_attrs:
+        return False
+    return None
+
+
+def _decide(ctx: Ctx, rule: str, text: str, accepted, vocab, mod, q, node, msg, construct, facts=None) -> bool:
+    v = _verdict(text, accepted, vocab)
+    if v is None:
+        raise Undecided(f"{q}: `{text}` is not one of the recognised forms {sorted(accepted)[:4]} and uses names outside the "
+                        f"rule's vocabulary")
+    return ctx.check(rule, v, mod, q, node, msg, construct=construct, facts=facts)
+
+
+def _loop_elem(loop: ast.For):
+    """(sequence expression | None, element texts, index name | None) of a for loop in one of the forms
+    `for x in SEQ`, `for i, x in enumerate(SEQ)`, `for i in range(<n>)` + `x = SEQ[i]` in the body."""
+    t, it = loop.target, loop.iter
+    if isinstance(t, ast.Tuple) and len(t.elts) == 2 and all(isinstance(e, ast.Name) for e in t.elts) \
+            and _is_np(it, "enumerate") and len(it.args) == 1:
+        return it.args[0], {t.elts[1].id, f"{u(it.args[0])}[{t.elts[0].id}]"}, t.elts[0].id
+    if isinstance(t, ast.Name) and _is_np(it, "range"):
+        idx = t.id
+        elems, seq = set(), None
+        for s in loop.body:
+            if isinstance(s, ast.Assign) and len(s.targets) == 1 and isinstance(s.targets[0], ast.Name) \
+                    and isinstance(s.value, ast.Subscript) and idx in names_in(s.value.slice):
+                elems.add(s.targets[0].id)
+                elems.add(u(s.value))
+                seq = s.value
+        return seq, elems, idx
+    if isinstance(t, ast.Name):
+        return it, {t.id}, None
+    return None, set(), None
+
+
+def _gap_compare(test: ast.expr, cur_texts: set[str], tol: str):
+    """Recognise the cluster-border test.  Returns dict(ref, fired, thr, signed_wrong) or None.
+    `fired` is the truth value of the test for which a NEW cluster starts."""
+    neg = False
+    while isinstance(test, ast.UnaryOp) and isinstance(test.op, ast.Not):
+        test, neg = test.operand, not neg
     if not (isinstance(test, ast.Compare) and len(test.ops) == 1):
         return None
     l, op, r = test.left, test.ops[0], test.comparators[0]
-    if isinstance(op, (ast.Lt, ast.LtE)):
-        l, r = r, l
-        op = ast.Gt() if isinstance(op, ast.Lt) else ast.GtE()
-    if not isinstance(op, (ast.Gt, ast.GtE)):
-        return None
-    inner = l
-    is_abs = False
-    if isinstance(inner, ast.Call) and call_name(inner) in ("abs", "absolute", "fabs") and len(inner.args) == 1:
-        inner = inner.args[0]
-        is_abs = True
-    if not (isinstance(inner, ast.BinOp) and isinstance(inner.op, ast.Sub)):
-        return None
-    a, b = inner.left, inner.right
-    if not (isinstance(a, ast.Name) and isinstance(b, ast.Name)):
-        return None
-    if a.id == cur and b.id != cur:
-        ref, order = b.id, "cur-ref"
-    elif b.id == cur and a.id != cur:
-        ref, order = a.id, "ref-cur"
+
+    def diff_of(e):
+        is_abs = False
+        if isinstance(e, ast.Call) and call_name(e) in ("abs", "absolute", "fabs") and len(e.args) == 1:
+            e, is_abs = e.args[0], True
+        if isinstance(e, ast.BinOp) and isinstance(e.op, ast.Sub):
+            return e, is_abs
+        return None, False
+    dl, al = diff_of(l)
+    dr, ar = diff_of(r)
+    if dl is not None and tol in names_in(r):
+        d, is_abs, thr, opn = dl, al, r, type(op)
+    elif dr is not None and tol in names_in(l):
+        d, is_abs, thr = dr, ar, l
+        opn = {ast.Lt: ast.Gt, ast.LtE: ast.GtE, ast.Gt: ast.Lt, ast.GtE: ast.LtE}.get(type(op))
     else:
         return None
-    if not is_abs and order == "ref-cur":
-        return ("__neg__", op, r)  # ref - cur <= 0 for ascending norms: never exceeds tol
-    return (ref, op, r)
+    if opn in (ast.Gt, ast.GtE):
+        fired = True
+    elif opn in (ast.Lt, ast.LtE):
+        fired = False
+    else:
+        return None
+    if neg:
+        fired = not fired
+    a, b = u(d.left), u(d.right)
+    if a in cur_texts and b not in cur_texts and isinstance(d.right, ast.Name):
+        ref, order = b, "cur-ref"
+    elif b in cur_texts and a not in cur_texts and isinstance(d.left, ast.Name):
+        ref, order = a, "ref-cur"
+    else:
+        return None
+    return dict(ref=ref, fired=fired, thr=thr, signed_wrong=(not is_abs and order == "ref-cur"))
+
+
+def _array_aliases(fn: ast.AST, name: str) -> set[str]:
+    """names connected to `name` by `x = y`, `x = y[<slice>]` (the same running array under several names)."""
+    names = {name}
+    changed = True
+    while changed:
+        changed = False
+        for s in stmts_local(fn):
+            if isinstance(s, ast.Assign) and len(s.targets) == 1 and isinstance(s.targets[0], ast.Name):
+                v = s.value
+                base = v.value if isinstance(v, ast.Subscript) and isinstance(v.slice, ast.Slice) else v
+                if isinstance(base, ast.Name):
+                    pair = {s.targets[0].id, base.id}
+                    if pair & names and not pair <= names:
+                        names |= pair
+                        changed = True
+    return names
 
 
 # ====================================================================================
 def run(ctx: Ctx) -> None:
     mod = ctx.repo.module(FILE)
-    outer = mod.func(OUTER)
-    inner = mod.func(INNER)
+    _check_intersect(ctx, mod)
+    _check_ismember(ctx, mod)
+    outer = normalise(mod, mod.func(OUTER), exclude={INNER})
+    inner = normalise(mod, mod.func(INNER))
     oparams = [a.arg for a in outer.args.args]
     if len(oparams) < 2:
         raise AnchorError(f"{OUTER}: expected parameters (points, tol)")
@@ -201,9 +639,16 @@ def run(ctx: Ctx) -> None:
 
     pm = parent_map(outer)
     loop2 = pm.get(call_stmt)
-    if not isinstance(loop2, ast.For) or not isinstance(loop2.target, ast.Name) or not isinstance(loop2.iter, ast.Name):
-        raise AnchorError(f"{OUTER}: the call of {INNER} is not directly inside `for size in counts`")
-    SIZE, CNT = loop2.target.id, loop2.iter.id
+    if not isinstance(loop2, ast.For):
+        raise AnchorError(f"{OUTER}: the call of {INNER} is not directly inside the loop over the clusters")
+    seq2, elems2, idx2 = _loop_elem(loop2)
+    if isinstance(seq2, ast.Subscript) and _is_np(loop2.iter, "range"):
+        seq2 = seq2.value
+    if not isinstance(seq2, ast.Name) or not elems2:
+        raise Undecided(f"{OUTER}: the loop around {INNER} is not a recognised traversal of the cluster sizes")
+    CNT = seq2.id
+    size_names = {e for e in elems2 if e.isidentifier()}
+    SIZE = actual[ip_size].id if isinstance(actual[ip_size], ast.Name) else None
 
     # argsort of the norms
     S = actual[ip_sidx].id if isinstance(actual[ip_sidx], ast.Name) else None
@@ -216,8 +661,9 @@ def run(ctx: Ctx) -> None:
         raise AnchorError(f"{OUTER}: norms `{N}` not defined exactly once")
 
     # clustering loop: the loop that increments the counts
+    cnt_names = _array_aliases(outer, CNT)
     incs = [s for s in stmts_local(outer) if isinstance(s, ast.AugAssign) and isinstance(s.target, ast.Subscript)
-            and u(s.target.value) == CNT]
+            and u(s.target.value) in cnt_names]
     loop1 = None
     for s in incs:
         p = s
@@ -236,11 +682,12 @@ def run(ctx: Ctx) -> None:
             raise AnchorError(f"{OUTER}: clustering loop (increments of `{CNT}`) not found")
 
     q = OUTER
+    sorted_forms = (f"{N}[{S}]", f"np.sort({N})")
     # =========================== R1 pruning soundness =======================================
     if vectorised is not None:
         arg = vectorised.left.args[0] if isinstance(vectorised.left, ast.Call) else None
         arg_i = inline_locals(outer, arg, stop=[N, S]) if arg is not None else None
-        ok_sorted = arg_i is not None and u(arg_i) in (f"{N}[{S}]", f"np.sort({N})")
+        ok_sorted = arg_i is not None and u(arg_i) in sorted_forms
         thr = _threshold_kind(vectorised.comparators[0], T)
         if not ok_sorted or thr == "unknown" or not isinstance(vectorised.ops[0], (ast.Gt, ast.GtE)):
             raise Undecided(f"{OUTER}: vectorised clustering `{u(vectorised)}` not recognised")
@@ -250,41 +697,77 @@ def run(ctx: Ctx) -> None:
                   f"gap threshold `{u(vectorised.comparators[0])}` can be smaller than tol", construct="pruning threshold")
         raise Undecided(f"{OUTER}: vectorised clustering recognised, but the bookkeeping rules (R3) know only the loop form")
 
-    if not isinstance(loop1.target, ast.Name):
-        raise AnchorError(f"{OUTER}: clustering loop target is not a name")
-    CUR = loop1.target.id
-    it_i = inline_locals(outer, loop1.iter, stop=[N, S])
-    sorted_iter = u(it_i) in (f"{N}[{S}]", f"np.sort({N})")
+    seq1, cur_texts, idx1 = _loop_elem(loop1)
+    if seq1 is None or not cur_texts:
+        raise Undecided(f"{OUTER}: the clustering loop header `for {u(loop1.target)} in {u(loop1.iter)}` is not a recognised traversal")
+    # which sequence is traversed: N[S] / np.sort(N) (possibly via a temporary), or N[S[i]] element-wise
+    if isinstance(seq1, ast.Subscript) and idx1 is not None and not _is_np(loop1.iter, "enumerate"):
+        el = inline_locals(outer, seq1, stop=[N, S, idx1])
+        base_txt = u(el)
+        if base_txt == f"{N}[{S}[{idx1}]]":
+            it_txt = f"{N}[{S}]"
+        elif isinstance(el, ast.Subscript) and u(el.slice) == idx1:
+            it_txt = u(inline_locals(outer, el.value, stop=[N, S]))
+        else:
+            it_txt = base_txt
+        rng = loop1.iter.args[-1] if len(loop1.iter.args) <= 2 else None
+        full = rng is not None and len(loop1.iter.args) == 1 and u(inline_locals(outer, rng, stop=[N, S, P])) in (
+            f"len({N})", f"{N}.size", f"{N}.shape[0]", f"{P}.shape[1]", f"len({S})", f"{S}.size", f"{S}.shape[0]",
+            f"len({N}[{S}])", f"{N}[{S}].size")
+        if not full:
+            raise Undecided(f"{OUTER}: index range `{u(loop1.iter)}` of the clustering loop not recognised as 'all points'")
+    else:
+        it_txt = u(inline_locals(outer, seq1, stop=[N, S]))
+    sorted_iter = it_txt in sorted_forms
+    if not sorted_iter and not (set(names_in(ast.parse(it_txt, mode="eval"))) <= {N, S, "np"}):
+        raise Undecided(f"{OUTER}: clustering loop iterates `{it_txt}`: not recognised")
     ctx.check("R2", sorted_iter, mod, q, loop1,
               f"the clustering loop must traverse the norms in ascending order through the same argsort array that "
-              f"is handed to {INNER} (`{N}[{S}]`); it iterates `{u(it_i)}`",
-              construct=f"clustering loop iterates {_rename(it_i, {N: 'NORMS', S: 'SIDX'})}", facts={"iter": u(it_i)})
+              f"is handed to {INNER} (`{N}[{S}]`); it iterates `{it_txt}`",
+              construct=f"clustering loop iterates {it_txt.replace(N, 'NORMS').replace(S, 'SIDX')}", facts={"iter": it_txt})
     if any(isinstance(n, (ast.Break, ast.Continue)) for n in walk_local(loop1)):
-        raise Undecided(f"{OUTER}: break/continue in the clustering loop")
+        raise Undecided(f"{OUTER}: break/continue in the clustering loop (not of the guard-continue form)")
     gaps = []
     for iff in [n for n in walk_local(loop1) if isinstance(n, ast.If)]:
-        g = _gap_compare(iff.test, CUR, T)
+        g = _gap_compare(inline_locals(loop1, iff.test, stop=list(cur_texts) + [T], depth=1)
+                         if not isinstance(iff.test, ast.Compare) else iff.test, cur_texts, T)
         if g is not None:
             gaps.append((iff, g))
     if len(gaps) != 1:
         raise Undecided(f"{OUTER}: expected one `|ref - current| > tol` test in the clustering loop, found {len(gaps)}")
-    gap_if, (REF, gop, gthr) = gaps[0]
-    if REF == "__neg__":
+    gap_if, gp = gaps[0]
+    REF, fired, gthr = gp["ref"], gp["fired"], gp["thr"]
+    if gp["signed_wrong"]:
         ctx.check("R1", False, mod, q, gap_if.test,
                   "the compared difference is reference - current, which is never positive for ascending norms: no "
                   "cluster border is ever detected... (signed difference in the wrong direction)",
                   construct="norm-clustering: signed gap with wrong orientation")
         return
+    CUR = sorted(t for t in cur_texts if t.isidentifier())[0] if any(t.isidentifier() for t in cur_texts) else sorted(cur_texts)[0]
     loop_cfg = cfgmod.build(loop1)  # CFG of one iteration of the body
+    n_if = loop_cfg.node_for(gap_if)
+    import networkx as nx
+    g_nofire = loop_cfg.g.copy()
+    fired_targets = []
+    for succ in list(g_nofire.successors(n_if)):
+        if g_nofire.edges[n_if, succ].get("cond") == fired:
+            fired_targets.append(succ)
+            g_nofire.remove_edge(n_if, succ)
+    if len(fired_targets) != 1:
+        raise Undecided(f"{OUTER}: both outcomes of the gap test lead to the same statement")
+    f_node = fired_targets[0]
+
+    def only_when_fired(node) -> bool:
+        return not nx.has_path(g_nofire, cfgmod.ENTRY, node)
     ref_assigns = [s for s in walk_local(loop1) if isinstance(s, ast.Assign) and any(
         isinstance(t, ast.Name) and t.id == REF for t in s.targets)]
     other_writes = [s for s in walk_local(loop1) if isinstance(s, (ast.AugAssign, ast.AnnAssign))
                     and isinstance(s.target, ast.Name) and s.target.id == REF]
-    if other_writes or any(not (isinstance(s.value, ast.Name) and s.value.id == CUR) for s in ref_assigns):
-        raise Undecided(f"{OUTER}: reference `{REF}` is written by something else than `{REF} = {CUR}`")
+    if other_writes or any(u(s.value) not in cur_texts for s in ref_assigns):
+        raise Undecided(f"{OUTER}: reference `{REF}` is written by something else than `{REF} = <current norm>`")
     nodes = {loop_cfg.node_for(s) for s in ref_assigns}
     chained = bool(nodes) and loop_cfg.every_path_passes(cfgmod.ENTRY, cfgmod.EXIT, nodes)
-    only_at_start = bool(ref_assigns) and all(_inside(pm, s, gap_if.body, gap_if) for s in ref_assigns)
+    only_at_start = bool(ref_assigns) and all(only_when_fired(n) for n in nodes)
     facts = {"reference": REF, "current": CUR, "test": u(gap_if.test),
              "reference_assignments": len(ref_assigns),
              "failing_input": "tol=1e-3, points (1-0.9999*tol, 0), (0, 1), (0, 1+0.001*tol) -> 3 unique points, two of them 1e-6 apart"}
@@ -332,46 +815,67 @@ def run(ctx: Ctx) -> None:
     # (sorted_idx: S is by construction the argument; its use in the loop is checked above)
 
     # =========================== R3 cluster bookkeeping ======================================
-    # cluster index
-    cinc = [s for s in incs if _inside(pm, s, loop1.body, loop1)]
-    if len(cinc) != 1 or not isinstance(cinc[0].op, ast.Add) or not (isinstance(cinc[0].value, ast.Constant) and cinc[0].value.value == 1) \
-            or not isinstance(cinc[0].target.slice, ast.Name):
-        raise Undecided(f"{OUTER}: expected exactly one `{CNT}[k] += 1` in the clustering loop")
-    cinc = cinc[0]
-    CI = cinc.target.slice.id
-    n_inc = loop_cfg.node_for(cinc)
-    n_if = loop_cfg.node_for(gap_if)
-    once = loop_cfg.every_path_passes(cfgmod.ENTRY, cfgmod.EXIT, {n_inc}) and not _inside(pm, cinc, gap_if.body, gap_if) \
-        and not _inside(pm, cinc, gap_if.orelse, gap_if)
-    ctx.check("R3", once, mod, q, cinc, "every point must be counted in exactly one cluster: the count increment runs once on "
-              "every path through the loop body", construct="count increment once per point")
-    ctx.check("R3", loop_cfg.dominates(n_if, n_inc), mod, q, cinc,
-              "the point that opens a new cluster must be counted in the NEW cluster: the count increment must come after "
-              "the gap test / cluster index update", construct="count increment after gap test")
+    cincs = [s for s in incs if _inside(pm, s, loop1.body, loop1)]
+    if not cincs or any(not isinstance(c.op, ast.Add) or not (isinstance(c.value, ast.Constant) and c.value.value == 1)
+                        or not isinstance(c.target.slice, ast.Name) for c in cincs) or len({c.target.slice.id for c in cincs}) != 1:
+        raise Undecided(f"{OUTER}: count increments in the clustering loop are not of the form `{CNT}[k] += 1` with one index k")
+    CI = cincs[0].target.slice.id
+    inc_nodes = [loop_cfg.node_for(c) for c in cincs]
+    every = loop_cfg.every_path_passes(cfgmod.ENTRY, cfgmod.EXIT, set(inc_nodes))
+    twice = any(a != b and loop_cfg.reachable(a, b) for a in inc_nodes for b in inc_nodes)
+    ctx.check("R3", every and not twice, mod, q, cincs[0], "every point must be counted in exactly one cluster: exactly one count "
+              "increment runs on every path through the loop body", construct="count increment once per point")
     ci_writes = [s for s in walk_local(loop1) if isinstance(s, (ast.AugAssign, ast.Assign)) and any(
         isinstance(t, ast.Name) and t.id == CI for t in ([s.target] if isinstance(s, ast.AugAssign) else s.targets))]
     ok_ci = len(ci_writes) == 1 and isinstance(ci_writes[0], ast.AugAssign) and isinstance(ci_writes[0].op, ast.Add) \
         and isinstance(ci_writes[0].value, ast.Constant) and ci_writes[0].value.value == 1 \
-        and _inside(pm, ci_writes[0], gap_if.body, gap_if)
+        and only_when_fired(loop_cfg.node_for(ci_writes[0])) \
+        and loop_cfg.every_path_passes(f_node, cfgmod.EXIT, {loop_cfg.node_for(ci_writes[0])}) | (f_node == loop_cfg.node_for(ci_writes[0]))
     ctx.check("R3", ok_ci, mod, q, ci_writes[0] if ci_writes else loop1,
               "the cluster index advances by one exactly when the gap test fires", construct="cluster index update")
+    after_test = all(loop_cfg.dominates(n_if, c) for c in inc_nodes)
+    if ok_ci:
+        n_ci = loop_cfg.node_for(ci_writes[0])
+        for c in inc_nodes:
+            if c == f_node and c != n_ci:
+                after_test = False
+            elif loop_cfg.reachable(f_node, c, avoiding=frozenset({n_ci})):
+                after_test = False
+    ctx.check("R3", after_test, mod, q, cincs[0],
+              "the point that opens a new cluster must be counted in the NEW cluster: the count increment must come after "
+              "the gap test / cluster index update", construct="count increment after gap test")
     # slicing of the counts between the loops
-    cdefs = _assigns(outer, CNT)
-    slices = [s for s in cdefs if isinstance(s, ast.Assign) and isinstance(s.value, ast.Subscript) and u(s.value.value) == CNT]
-    ok_slice = len(slices) == 1 and isinstance(slices[0].value.slice, ast.Slice) and slices[0].value.slice.lower is None \
-        and slices[0].value.slice.upper is not None and _rename(slices[0].value.slice.upper, {CI: "CI"}) in ("CI + 1", "1 + CI") \
-        and loop1.end_lineno < slices[0].lineno < loop2.lineno
-    ctx.check("R3", ok_slice, mod, q, slices[0] if slices else loop2,
-              f"all clusters 0..cluster index must be kept (`{CNT}[: {CI} + 1]`) between the two loops",
-              construct="keep clusters [: cluster_idx + 1]",
-              facts={"slice": u(slices[0]) if slices else None})
-    zero = [s for s in cdefs if isinstance(s, ast.Assign) and _is_np(s.value, "zeros")]
-    ctx.check("R3", len(zero) == 1 and f"{P}.shape[1]" in u(zero[0].value.args[0]), mod, q, zero[0] if zero else outer,
+    slices = [s for s in stmts_local(outer) if isinstance(s, ast.Assign) and len(s.targets) == 1 and u(s.targets[0]) in cnt_names
+              and isinstance(s.value, ast.Subscript) and u(s.value.value) in cnt_names and isinstance(s.value.slice, ast.Slice)]
+    if len(slices) == 1 and slices[0].value.slice.lower is None and slices[0].value.slice.upper is not None \
+            and loop1.end_lineno < slices[0].lineno < loop2.lineno:
+        up = _rename(inline_locals(outer, slices[0].value.slice.upper, stop=[CI]), {CI: "CI"})
+        _decide(ctx, "R3", up, {"CI + 1", "1 + CI"}, {"CI"}, mod, q, slices[0],
+                f"all clusters 0..cluster index must be kept (`{CNT}[: {CI} + 1]`) between the two loops; kept `[:{up}]`",
+                construct=f"keep clusters [: {up}]", facts={"slice": u(slices[0])})
+    elif not slices:
+        raise Undecided(f"{OUTER}: no `{CNT} = {CNT}[: {CI} + 1]` between the loops: unknown way of bounding the clusters")
+    else:
+        raise Undecided(f"{OUTER}: slicing of the cluster counts not recognised: {[u(s) for s in slices]}")
+    zero = [s for s in stmts_local(outer) if isinstance(s, ast.Assign) and len(s.targets) == 1 and u(s.targets[0]) in cnt_names
+            and isinstance(s.value, ast.Call) and call_name(s.value) in ("zeros", "zeros_like")]
+    if len(zero) != 1:
+        raise Undecided(f"{OUTER}: initialisation of the cluster counts not recognised")
+    ztxt = u(zero[0].value.args[0]) if zero[0].value.args else ""
+    z_ok = any(x in ztxt for x in (f"{P}.shape[1]", f"{N}.size", f"len({N})", f"{N}.shape[0]", f"{S}.size", f"len({S})")) \
+        or (call_name(zero[0].value) == "zeros_like" and ztxt in (S, N))
+    if not z_ok and not ({n for n in names_in(zero[0].value)} <= {P, N, S, "np"}):
+        raise Undecided(f"{OUTER}: size of the cluster count array `{ztxt}` not recognised")
+    ctx.check("R3", z_ok, mod, q, zero[0],
               "the cluster counts start at zero with room for one cluster per point", construct="counts initialised to zeros(n_pts)")
 
     # second loop: offsets
     START = actual[ip_start].id if isinstance(actual[ip_start], ast.Name) else None
-    ok_args = START is not None and isinstance(actual[ip_size], ast.Name) and actual[ip_size].id == SIZE
+    if START is None or SIZE is None:
+        raise Undecided(f"{OUTER}: start/size arguments of {INNER} are not local names")
+    ok_args = SIZE in size_names and START not in size_names
+    if not ok_args and not ({SIZE, START} & size_names):
+        raise Undecided(f"{OUTER}: neither start nor size argument of {INNER} is the cluster-size loop element")
     ctx.check("R3", ok_args, mod, q, call,
               f"{INNER} must receive (cluster_start=<running start>, cluster_size=<loop variable>); it receives "
               f"({u(actual[ip_start])}, {u(actual[ip_size])})", construct="inner start/size arguments",
@@ -398,6 +902,8 @@ def run(ctx: Ctx) -> None:
     augs = [s for s in body2 if isinstance(s, ast.AugAssign) and isinstance(s.target, ast.Name) and isinstance(s.op, ast.Add)]
     aug_by = {s.target.id: s for s in augs}
     if START not in aug_by:
+        if any(isinstance(s, ast.Assign) and any(u(t) == START for t in s.targets) for s in walk_local(loop2)):
+            raise Undecided(f"{OUTER}: the cluster start `{START}` is recomputed in the loop in an unknown way")
         ctx.check("R3", False, mod, q, loop2, f"the running cluster start `{START}` is never advanced", construct="cluster_start advance")
         return
     others = [k for k in aug_by if k != START]
@@ -405,17 +911,18 @@ def run(ctx: Ctx) -> None:
         raise Undecided(f"{OUTER}: expected one running unique-count offset in the second loop, found {others}")
     NU = others[0]
     roles = {NU: "NU", START: "CS", SIZE: "SZ", S: "SIDX", UPI: "UPI", N2OI: "N2OI", O2NI: "O2NI"}
+    vocab = set(roles.values())
 
     def canon(e):
         return _rename(inline_locals(loop2, e, stop=list(roles)), roles)
-    K_forms = ("UPI.shape[1]", "N2OI.size", "N2OI.shape[0]", "len(N2OI)")
+    K_forms = ("UPI.shape[1]", "N2OI.size", "N2OI.shape[0]", "len(N2OI)", "UPI.shape[-1]")
     k_nu = canon(aug_by[NU].value)
-    ctx.check("R3", k_nu in K_forms, mod, q, aug_by[NU],
-              f"the unique-count offset advances by the number of representatives of the cluster; it advances by `{k_nu}`",
-              construct=f"num_unique += {k_nu}")
-    ctx.check("R3", canon(aug_by[START].value) == "SZ", mod, q, aug_by[START],
-              f"the cluster start advances by the cluster size; it advances by `{canon(aug_by[START].value)}`",
-              construct=f"cluster_start += {canon(aug_by[START].value)}")
+    _decide(ctx, "R3", k_nu, set(K_forms), vocab, mod, q, aug_by[NU],
+            f"the unique-count offset advances by the number of representatives of the cluster; it advances by `{k_nu}`",
+            construct=f"num_unique += {k_nu}")
+    _decide(ctx, "R3", canon(aug_by[START].value), {"SZ"}, vocab, mod, q, aug_by[START],
+            f"the cluster start advances by the cluster size; it advances by `{canon(aug_by[START].value)}`",
+            construct=f"cluster_start += {canon(aug_by[START].value)}")
     # offsets are advanced after their last use in the body
     for nm, lab in ((NU, "unique-count offset"), (START, "cluster start")):
         pos = body2.index(aug_by[nm])
@@ -424,27 +931,27 @@ def run(ctx: Ctx) -> None:
                   f"the {lab} must be advanced after the per-cluster results were written with it",
                   construct=f"{lab} advanced last")
     # store shapes
-    sl_ok = {f"NU:NU + {k}" for k in K_forms}
+    sl_ok = {f"NU:NU + {k}" for k in K_forms} | {f"NU:{k} + NU" for k in K_forms}
     t_pts = canon(role_of_store["pts"].targets[0].slice)
     t_n2o = canon(role_of_store["n2o"].targets[0].slice)
-    ctx.check("R3", t_pts in {f":, {x}" for x in sl_ok}, mod, q,
-              role_of_store["pts"], f"cluster representatives must be written to columns [offset : offset + count]; target index `{t_pts}`",
-              construct=f"unique_pts store [{t_pts}]")
-    ctx.check("R3", t_n2o in sl_ok, mod, q, role_of_store["n2o"],
-              f"cluster new_2_old must be written to [offset : offset + count]; target index `{t_n2o}`",
-              construct=f"new_2_old store [{t_n2o}]")
+    _decide(ctx, "R3", t_pts, {f":, {x}" for x in sl_ok}, vocab, mod, q, role_of_store["pts"],
+            f"cluster representatives must be written to columns [offset : offset + count]; target index `{t_pts}`",
+            construct=f"unique_pts store [{t_pts}]")
+    _decide(ctx, "R3", t_n2o, sl_ok, vocab, mod, q, role_of_store["n2o"],
+            f"cluster new_2_old must be written to [offset : offset + count]; target index `{t_n2o}`",
+            construct=f"new_2_old store [{t_n2o}]")
     ctx.check("R3", canon(role_of_store["pts"].value) == "UPI" and canon(role_of_store["n2o"].value) == "N2OI", mod, q,
               role_of_store["n2o"], "representatives and their original indices are copied unchanged",
               construct="inner results copied unchanged")
     t_o2n = canon(role_of_store["o2n"].targets[0].slice)
     v_o2n = canon(role_of_store["o2n"].value)
-    o2n_targets = {"SIDX[np.arange(CS, CS + SZ)]", "SIDX[CS:CS + SZ]"}
-    ctx.check("R3", t_o2n in o2n_targets, mod, q, role_of_store["o2n"],
-              f"old_2_new of the cluster members is scattered through the argsort array at [start : start + size]; target `{t_o2n}`",
-              construct=f"old_2_new scatter [{t_o2n}]")
-    ctx.check("R3", v_o2n in ("O2NI + NU", "NU + O2NI"), mod, q, role_of_store["o2n"],
-              f"cluster-local unique numbers are shifted by the number of uniques found so far; value `{v_o2n}`",
-              construct=f"old_2_new value {v_o2n}")
+    o2n_targets = {"SIDX[np.arange(CS, CS + SZ)]", "SIDX[CS:CS + SZ]", "SIDX[np.arange(CS, SZ + CS)]", "SIDX[CS:SZ + CS]"}
+    _decide(ctx, "R3", t_o2n, o2n_targets, vocab, mod, q, role_of_store["o2n"],
+            f"old_2_new of the cluster members is scattered through the argsort array at [start : start + size]; target `{t_o2n}`",
+            construct=f"old_2_new scatter [{t_o2n}]")
+    _decide(ctx, "R3", v_o2n, {"O2NI + NU", "NU + O2NI"}, vocab, mod, q, role_of_store["o2n"],
+            f"cluster-local unique numbers are shifted by the number of uniques found so far; value `{v_o2n}`",
+            construct=f"old_2_new value {v_o2n}")
 
     # =========================== R4 inner function ================================================
     _check_inner(ctx, mod, inner, iparams)
@@ -514,10 +1021,12 @@ def _check_inner(ctx: Ctx, mod, fn: ast.FunctionDef, iparams) -> None:
         raise AnchorError(f"{INNER}: expected one top-level for loop")
     loop = loops[0]
     I = loop.target.id
-    ok_range = _is_np(loop.iter, "range") and len(loop.iter.args) == 2 and u(loop.iter.args[0]) == cstart and \
-        u(loop.iter.args[1]) in (f"{cstart} + {csize}", f"{csize} + {cstart}")
-    ctx.check("R4", ok_range, mod, q, loop, f"the cluster is traversed as range({cstart}, {cstart} + {csize}) of the sorted order",
-              construct=f"cluster traversal {_rename(loop.iter, {cstart: 'CS', csize: 'SZ'})}")
+    if not _is_np(loop.iter, "range"):
+        raise Undecided(f"{INNER}: cluster traversal `{u(loop.iter)}` is not a range over the sorted positions")
+    rtxt = _rename(inline_locals(fn, loop.iter, stop=[cstart, csize]), {cstart: "CS", csize: "SZ"})
+    _decide(ctx, "R4", rtxt, {"range(CS, CS + SZ)", "range(CS, SZ + CS)"}, {"CS", "SZ"}, mod, q, loop,
+            f"the cluster is traversed as range({cstart}, {cstart} + {csize}) of the sorted order; found `{u(loop.iter)}`",
+            construct=f"cluster traversal {rtxt}")
     rets = [s for s in fn.body if isinstance(s, ast.Return)]
     if len(rets) != 1 or not isinstance(rets[0].value, ast.Tuple) or len(rets[0].value.elts) != 3:
         raise AnchorError(f"{INNER}: expected `return a, b, c`")
@@ -555,18 +1064,25 @@ def _check_inner(ctx: Ctx, mod, fn: ast.FunctionDef, iparams) -> None:
     if len(ifs) != 1:
         raise Undecided(f"{INNER}: expected one new-point/twin branch in the loop")
     br = ifs[0]
-    test = inline_locals(loop, br.test, stop=list(roles))
     W = None
     new_body, twin_body = None, None
     t = br.test
-    if isinstance(t, ast.UnaryOp) and isinstance(t.op, ast.Not) and _is_np(t.operand, "any") and isinstance(t.operand.args[0], ast.Name):
-        W = t.operand.args[0].id
-        new_body, twin_body = br.body, br.orelse
-    elif _is_np(t, "any") and isinstance(t.args[0], ast.Name):
-        W = t.args[0].id
-        new_body, twin_body = br.orelse, br.body
-    else:
-        raise Undecided(f"{INNER}: branch test `{u(t)}` not recognised (expected [not] np.any(<within_tol>))")
+    if isinstance(t, ast.Name):
+        t = inline_locals(loop, t, stop=list(roles))
+    neg = False
+    while isinstance(t, ast.UnaryOp) and isinstance(t.op, ast.Not):
+        t, neg = t.operand, not neg
+
+    def any_of(e):
+        if _is_np(e, "any") and e.args and isinstance(e.args[0], ast.Name):
+            return e.args[0].id
+        if _is_np(e, "any") and not e.args and isinstance(e.func, ast.Attribute) and isinstance(e.func.value, ast.Name):
+            return e.func.value.id
+        return None
+    W = any_of(t)
+    if W is None:
+        raise Undecided(f"{INNER}: branch test `{u(br.test)}` not recognised (expected [not] np.any(<within_tol>))")
+    new_body, twin_body = (br.body, br.orelse) if neg else (br.orelse, br.body)
     roles[W] = "W"
 
     def store_map(body):
@@ -580,17 +1096,29 @@ def _check_inner(ctx: Ctx, mod, fn: ast.FunctionDef, iparams) -> None:
     want = {"UC": ((":, KEEP",), (COLFORM,)),
             "O2N": (("I - CS",), ("KEEP",)),
             "N2O": (("KEEP",), ("SIDX[I]",))}
+    vocab = set(roles.values()) | {"W", "IDX"}
+
+    def store_verdict(got, idx_forms, val_forms):
+        if len(got) != 1:
+            return False if not got else None
+        a, b = _verdict(got[0][0], set(idx_forms), vocab), _verdict(got[0][1], set(val_forms), vocab)
+        if a is None or b is None:
+            return None
+        return a and b
     for arr, (idx_forms, val_forms) in want.items():
         got = sm.get(arr, [])
-        ok = len(got) == 1 and got[0][0] in idx_forms and got[0][1] in val_forms
+        ok = store_verdict(got, idx_forms, val_forms)
+        if ok is None:
+            raise Undecided(f"{INNER}: store(s) into {arr} in the new-representative arm not recognised: {[(g[0], g[1]) for g in got]}")
         ctx.check("R4", ok, mod, q, got[0][2] if got else br,
                   f"a new representative must be recorded as {arr}[{idx_forms[0]}] = {val_forms[0]}; found "
                   f"{[(g[0], g[1]) for g in got]}", construct=f"new representative: {arr}[{idx_forms[0]}]",
                   facts={"found": [(g[0], g[1]) for g in got]})
-    kinc = [s for s in new_body if isinstance(s, ast.AugAssign) and u(s.target) == KEEP]
+    kinc = [s for s in new_body if (isinstance(s, ast.AugAssign) and u(s.target) == KEEP and isinstance(s.op, ast.Add)
+                                    and u(s.value) == "1")
+            or (isinstance(s, ast.Assign) and u(s.targets[0]) == KEEP and u(s.value) in (f"{KEEP} + 1", f"1 + {KEEP}"))]
     st_pos = [new_body.index(g[2]) for arr in want for g in sm.get(arr, [])]
-    ok_keep = len(kinc) == 1 and isinstance(kinc[0].op, ast.Add) and u(kinc[0].value) == "1" and \
-        all(p < new_body.index(kinc[0]) for p in st_pos)
+    ok_keep = len(kinc) == 1 and all(p < new_body.index(kinc[0]) for p in st_pos)
     ctx.check("R4", ok_keep, mod, q, kinc[0] if kinc else br,
               "the number of representatives is advanced by one after the three arrays were written at the old value",
               construct="keep += 1 after the stores")
@@ -620,7 +1148,11 @@ def _check_inner(ctx: Ctx, mod, fn: ast.FunctionDef, iparams) -> None:
     roles[IDX] = "IDX"
     smt = store_map([s for s in twin_body if not isinstance(s, ast.If)])
     got = smt.get("O2N", [])
-    ctx.check("R4", len(got) == 1 and got[0][0] == "I - CS" and got[0][1] == "IDX", mod, q, got[0][2] if got else br,
+    vocab = vocab | {"IDX"}
+    okt = store_verdict(got, ("I - CS",), ("IDX",))
+    if okt is None:
+        raise Undecided(f"{INNER}: twin store into O2N not recognised: {[(g[0], g[1]) for g in got]}")
+    ctx.check("R4", okt, mod, q, got[0][2] if got else br,
               "a repeated point maps to its twin: O2N[i - cluster_start] = idx", construct="twin: O2N[I - CS] = IDX",
               facts={"found": [(g[0], g[1]) for g in got]})
     # replacement
@@ -654,10 +1186,13 @@ def _check_inner(ctx: Ctx, mod, fn: ast.FunctionDef, iparams) -> None:
     smr = store_map(rif.body)
     a = smr.get("N2O", [])
     b = smr.get("UC", [])
-    ctx.check("R4", len(a) == 1 and a[0][0] == "IDX" and a[0][1] == "SIDX[I]", mod, q, a[0][2] if a else rif,
+    va, vb = store_verdict(a, ("IDX",), ("SIDX[I]",)), store_verdict(b, (":, IDX",), (COLFORM,))
+    if va is None or vb is None:
+        raise Undecided(f"{INNER}: replacement stores not recognised: {[(g[0], g[1]) for g in a + b]}")
+    ctx.check("R4", va, mod, q, a[0][2] if a else rif,
               "replacement must record the original index of the earlier point: N2O[idx] = sorted_idx[i]",
               construct="replacement: N2O[IDX] = SIDX[I]", facts={"found": [(g[0], g[1]) for g in a]})
-    ctx.check("R4", len(b) == 1 and b[0][0] == ":, IDX" and b[0][1] == COLFORM, mod, q,
+    ctx.check("R4", vb, mod, q,
               b[0][2] if b else rif,
               "replacement must also replace the coordinates (unique_pts[:, k] == points[:, new_2_old[k]]): "
               "UC[:, idx] = col - index and coordinates are parallel updates",
@@ -689,7 +1224,7 @@ def _check_reorder(ctx: Ctx, mod, outer: ast.FunctionDef, loop2: ast.For, role_o
     ORD = None
     for s in tail:
         if isinstance(s, ast.Assign) and isinstance(s.targets[0], ast.Name) and _is_np(s.value, "argsort") \
-                and u(s.value.args[0]) == RN:
+                and s.value.args and RN in names_in(s.value.args[0]):
             ORD = s.targets[0].id
             ord_stmt = s
     if ORD is None:
@@ -706,15 +1241,26 @@ def _check_reorder(ctx: Ctx, mod, outer: ast.FunctionDef, loop2: ast.For, role_o
     # slicing to num_unique must precede the argsort
     nsl = [s for s in defs_of(RN) if canon(s.value) == "N[:NU]"]
     usl = [s for s in defs_of(RU) if canon(s.value) in ("U[:, :NU]",)]
-    ok = len(nsl) == 1 and nsl[0].lineno < ord_stmt.lineno and len(usl) == 1
+    arg_txt = canon(ord_stmt.value.args[0])
+    ok = len(nsl) == 1 and nsl[0].lineno < ord_stmt.lineno and len(usl) == 1 and arg_txt == "N"
+    if not ok:
+        unsliced = not nsl and arg_txt == "N" and not any("NU" in canon(s.value) for s in defs_of(RN))
+        missing_u = len(nsl) == 1 and nsl[0].lineno < ord_stmt.lineno and arg_txt == "N" and not any("NU" in canon(s.value) for s in defs_of(RU))
+        if not (unsliced or missing_u):
+            raise Undecided(f"{OUTER}: slicing of the result arrays to the number of unique points not recognised "
+                            f"(argsort of `{arg_txt}`, {[u(s) for s in defs_of(RN) + defs_of(RU)]})")
     ctx.check("R5", ok, mod, q, ord_stmt,
               "unused space must be sliced away ([:num_unique]) from new_2_old before it is argsorted, and from unique_pts",
               construct="slice to num_unique before argsort", facts={"n": [u(s) for s in nsl], "u": [u(s) for s in usl]})
     # gathers
     ulast = defs_of(RU)[-1] if defs_of(RU) else None
     nlast = defs_of(RN)[-1] if defs_of(RN) else None
-    ok_u = ulast is not None and canon(ulast.value) == "U[:, ORD]" and ulast.lineno > ord_stmt.lineno
-    ok_n = nlast is not None and canon(nlast.value) == "N[ORD]" and nlast.lineno > ord_stmt.lineno
+    rvocab = set(roles.values())
+    ok_u = ulast is not None and ulast.lineno > ord_stmt.lineno and _verdict(canon(ulast.value), {"U[:, ORD]"}, rvocab)
+    ok_n = nlast is not None and nlast.lineno > ord_stmt.lineno and _verdict(canon(nlast.value), {"N[ORD]"}, rvocab)
+    if ok_u is None or ok_n is None:
+        raise Undecided(f"{OUTER}: re-ordering of the outputs not recognised: `{u(ulast)}`, `{u(nlast)}`")
+    ok_u, ok_n = bool(ok_u), bool(ok_n)
     ctx.check("R5", ok_u, mod, q, ulast or rets[0],
               "returned points must be re-ordered by the first-occurrence ordering: unique_pts[:, ordering]",
               construct="unique_pts gather by ordering", facts={"last_def": u(ulast) if ulast else None})
@@ -738,6 +1284,12 @@ def _check_reorder(ctx: Ctx, mod, outer: ast.FunctionDef, loop2: ast.For, role_o
             verdict = True
         elif isinstance(base, ast.Name):
             LK = base.id
+            for _ in range(4):  # follow plain aliases `lookup = inv`
+                d1 = defs_of(LK)
+                if len(d1) == 1 and isinstance(d1[0].value, ast.Name):
+                    LK = d1[0].value.id
+                else:
+                    break
             scat = [s for s in tail if isinstance(s, ast.Assign) and isinstance(s.targets[0], ast.Subscript)
                     and u(s.targets[0].value) == LK]
             init = defs_of(LK)
@@ -760,11 +1312,385 @@ def _check_reorder(ctx: Ctx, mod, outer: ast.FunctionDef, loop2: ast.For, role_o
               facts={"remap": u(olast)})
 
 
+# ====================================================================================
+#  membership helpers: intersect_sets (R6), ismember_columns (R7)
+# ====================================================================================
+
+def _defs_map(fn: ast.AST) -> dict[str, list[ast.expr]]:
+    """name -> expressions that define (or are stored into) it, in source order."""
+    out: dict[str, list[ast.expr]] = {}
+    for s in stmts_local(fn):
+        if isinstance(s, ast.Assign):
+            for t in s.targets:
+                tl = t.elts if isinstance(t, (ast.Tuple, ast.List)) else [t]
+                for x in tl:
+                    if isinstance(x, ast.Name):
+                        out.setdefault(x.id, []).append(s.value)
+                    elif isinstance(x, ast.Subscript) and isinstance(x.value, ast.Name):
+                        out.setdefault(x.value.id, []).append(s.value)
+                        out.setdefault(x.value.id, []).append(x.slice)
+        elif isinstance(s, ast.AnnAssign) and s.value is not None and isinstance(s.target, ast.Name):
+            out.setdefault(s.target.id, []).append(s.value)
+        elif isinstance(s, ast.AugAssign) and isinstance(s.target, ast.Name):
+            out.setdefault(s.target.id, []).append(s.value)
+    return out
+
+
+def _closure(defs: dict[str, list[ast.expr]], name: str) -> set[str]:
+    seen, todo = set(), [name]
+    while todo:
+        n = todo.pop()
+        if n in seen:
+            continue
+        seen.add(n)
+        for e in defs.get(n, []):
+            todo.extend(names_in(e) - seen)
+    return seen
+
+
+def _points_arg(e: ast.expr, params: list[str]):
+    """(parameter, transposed?) for the argument of a KDTree constructor."""
+    if isinstance(e, ast.Attribute) and e.attr == "T" and isinstance(e.value, ast.Name) and e.value.id in params:
+        return e.value.id, True
+    if isinstance(e, ast.Call) and call_name(e) == "transpose":
+        base = e.args[0] if e.args else (e.func.value if isinstance(e.func, ast.Attribute) else None)
+        if isinstance(base, ast.Name) and base.id in params:
+            return base.id, True
+    if isinstance(e, ast.Name) and e.id in params:
+        return e.id, False
+    return None, None
+
+
+def _norm_param(pe) -> str:
+    """'l2' | 'other:<text>' | 'unknown' for the p= argument of a KD-tree ball query."""
+    if pe is None:
+        return "l2"
+    if isinstance(pe, ast.Constant) and isinstance(pe.value, (int, float)) and not isinstance(pe.value, bool):
+        return "l2" if pe.value == 2 else f"other:{pe.value}"
+    if u(pe) in ("np.inf", "numpy.inf", "math.inf", "inf", "float('inf')"):
+        return "other:inf"
+    return "unknown"
+
+
+def _check_intersect(ctx: Ctx, mod) -> None:
+    q = "intersect_sets"
+    fn = mod.func(q)
+    params = [a.arg for a in fn.args.args]
+    if len(params) < 3:
+        raise AnchorError(f"{q}: expected parameters (a, b, tol)")
+    A, B, TOL = params[:3]
+    defs = _defs_map(fn)
+    trees: dict[str, tuple] = {}
+    for name, exprs in defs.items():
+        for e in exprs:
+            if isinstance(e, ast.Call) and call_name(e) in ("KDTree", "cKDTree") and e.args:
+                trees[name] = _points_arg(e.args[0], params) + (e,)
+
+    def tree_of(e):
+        if isinstance(e, ast.Name) and e.id in trees:
+            return trees[e.id]
+        if isinstance(e, ast.Call) and call_name(e) in ("KDTree", "cKDTree") and e.args:
+            return _points_arg(e.args[0], params) + (e,)
+        return (None, None, None)
+    queries = [c for c in walk_local(fn) if isinstance(c, ast.Call) and isinstance(c.func, ast.Attribute)
+               and c.func.attr in ("query_ball_tree", "query_ball_point", "query_pairs", "sparse_distance_matrix", "query",
+                                   "count_neighbors")]
+    if not queries:
+        raise Undecided(f"{q}: no KD-tree proximity query found (a different comparison strategy is an unknown idiom)")
+    ctx.check("R6", len(queries) == 1, mod, q, queries[0],
+              f"all four results must come from ONE proximity query; found {len(queries)}: {[u(c)[:60] for c in queries]}",
+              construct="one proximity query")
+    qc = queries[0]
+    if qc.func.attr != "query_ball_tree":
+        raise Undecided(f"{q}: proximity query `{qc.func.attr}` is not the known ball-tree form")
+    other = qc.args[0] if qc.args else kwarg(qc, "other")
+    r = qc.args[1] if len(qc.args) > 1 else kwarg(qc, "r")
+    pe = qc.args[2] if len(qc.args) > 2 else kwarg(qc, "p")
+    eps = qc.args[3] if len(qc.args) > 3 else kwarg(qc, "eps")
+    ta, tb = tree_of(qc.func.value), tree_of(other) if other is not None else (None, None, None)
+    if ta[0] is None or tb[0] is None:
+        raise Undecided(f"{q}: the trees of `{u(qc)}` are not KDTree(<parameter>[.T]) objects")
+    ctx.check("R6", (ta[0], tb[0]) == (A, B), mod, q, qc,
+              f"the query must go from the first set `{A}` against the second set `{B}` (the result is indexed by the columns of "
+              f"`{A}` and holds column numbers of `{B}`); it goes from `{ta[0]}` against `{tb[0]}`",
+              construct=f"query from {'a' if ta[0] == A else 'b'} against {'b' if tb[0] == B else 'a'}")
+    for lab, t in (("first", ta), ("second", tb)):
+        ctx.check("R6", t[1] is True, mod, q, t[2],
+                  f"set members are COLUMNS; KDTree takes one point per row, so the {lab} tree must be built from the transposed "
+                  f"input (`{t[0]}.T`); found `{u(t[2])}`", construct=f"{lab} tree built from transposed input: {t[1]}")
+    # radius
+    if r is None:
+        raise Undecided(f"{q}: query radius not found")
+    rk = _threshold_kind(r, TOL)
+    if rk == "unknown":
+        raise Undecided(f"{q}: query radius `{u(r)}` not recognised")
+    exact_r = rk == "tol" or (rk == "geq" and isinstance(r, ast.BinOp) and any(
+        isinstance(x, ast.Constant) and x.value == 1 for x in (r.left, r.right)))
+    ctx.check("R6", exact_r, mod, q, qc, f"the ball radius must be the tolerance `{TOL}` itself; found `{u(r)}`",
+              construct=f"query radius {_rename(r, {TOL: 'TOL'})}")
+    nk = _norm_param(pe)
+    if nk == "unknown":
+        raise Undecided(f"{q}: Minkowski parameter `{u(pe)}` of the ball query not recognised")
+    ctx.check("R6", nk == "l2", mod, q, qc,
+              "columns are equal when their EUCLIDEAN distance is within tol: the ball query must use the default p=2"
+              + ("" if nk == "l2" else f"; p={nk.split(':')[-1]} reports columns at distance up to sqrt(nd)*tol (max-norm) / "
+                                       f"misses columns (1-norm) compared with brute force"), construct=f"query norm {nk}")
+    if eps is not None and not (isinstance(eps, ast.Constant) and eps.value == 0):
+        ctx.check("R6", False, mod, q, qc, f"approximate ball query (eps={u(eps)}): members within tol may be missed",
+                  construct=f"query eps {u(eps)}")
+    # result variable
+    pm = parent_map(fn)
+    par = pm.get(qc)
+    if not (isinstance(par, ast.Assign) and len(par.targets) == 1 and isinstance(par.targets[0], ast.Name)):
+        raise Undecided(f"{q}: the query result is not bound to a local name")
+    I = par.targets[0].id
+    rets = [s for s in walk_local(fn) if isinstance(s, ast.Return)]
+    if len(rets) != 1 or not isinstance(rets[0].value, ast.Tuple) or len(rets[0].value.elts) != 4 \
+            or not all(isinstance(e, ast.Name) for e in rets[0].value.elts):
+        raise AnchorError(f"{q}: expected one `return ia, ib, a_in_b, intersection` of four names")
+    r0, r1, r2, r3 = [e.id for e in rets[0].value.elts]
+    ctx.check("R6", r3 == I, mod, q, rets[0], f"the fourth result must be the per-column hit list of the query itself (`{I}`); it is `{r3}`",
+              construct="fourth result is the query result")
+
+    def kind(name: str) -> str:
+        """'positions' (indices of a-columns with a hit), 'contents' (b-column numbers found), 'mixed', 'none'"""
+        clo = _closure(defs, name)
+        if I not in clo:
+            return "none"
+        pos = con = False
+        for n in clo - {I}:
+            for e in defs.get(n, []):
+                txt = u(e)
+                if I not in names_in(e):
+                    continue
+                if f"range(len({I}))" in txt or f"enumerate({I})" in txt or any(
+                        isinstance(c, ast.Call) and call_name(c) in ("flatnonzero", "nonzero", "where", "argwhere") for c in ast.walk(e)):
+                    pos = True
+                elif any(isinstance(c, ast.Call) and call_name(c) in ("hstack", "concatenate", "from_iterable", "chain") for c in ast.walk(e)) \
+                        or (isinstance(e, (ast.ListComp, ast.GeneratorExp)) and len(e.generators) == 2):
+                    con = True
+        return "positions" if pos and not con else ("contents" if con and not pos else ("mixed" if pos and con else "none"))
+    k0, k1 = kind(r0), kind(r1)
+    if "none" in (k0, k1) or "mixed" in (k0, k1):
+        raise Undecided(f"{q}: cannot classify how `{r0}` / `{r1}` are derived from the query result `{I}` ({k0}, {k1})")
+    ctx.check("R6", k0 == "positions", mod, q, rets[0],
+              f"the first result lists the columns of `{A}` that have a hit (positions in the hit list); `{r0}` is derived as {k0}",
+              construct=f"first result derived as {k0}")
+    ctx.check("R6", k1 == "contents", mod, q, rets[0],
+              f"the second result lists the columns of `{B}` that were hit (contents of the hit list); `{r1}` is derived as {k1}",
+              construct=f"second result derived as {k1}")
+    # polarity of the non-emptiness filter
+    for n in _closure(defs, r0) - {I}:
+        for e in defs.get(n, []):
+            for c in [c for c in ast.walk(e) if isinstance(c, ast.Compare) and len(c.ops) == 1 and isinstance(c.left, ast.Call)
+                      and call_name(c.left) == "len" and I in names_in(c.left) and isinstance(c.comparators[0], ast.Constant)]:
+                if isinstance(c.left.args[0], ast.Name) and c.left.args[0].id == I:
+                    continue  # len(intersection) > 0: emptiness of the whole result
+                k = c.comparators[0].value
+                op = c.ops[0]
+                ok = (isinstance(op, ast.Gt) and k == 0) or (isinstance(op, ast.GtE) and k == 1) or (isinstance(op, ast.NotEq) and k == 0)
+                ctx.check("R6", ok, mod, q, c, f"a column of `{A}` is a member iff its hit list is NON-empty; the filter is `{u(c)}`",
+                          construct=f"hit filter {_rename(c, {I: 'HITS'})}")
+    # the membership mask
+    mdefs = defs.get(r2, [])
+    alloc = [e for e in mdefs if isinstance(e, ast.Call) and call_name(e) in ("zeros", "full", "zeros_like")]
+    if alloc:
+        sz = u(alloc[0].args[0]) if alloc[0].args else ""
+        ctx.check("R6", sz in (f"{A}.shape[-1]", f"{A}.shape[1]") and "bool" in u(alloc[0]), mod, q, alloc[0],
+                  f"the mask has one boolean entry per column of `{A}`; allocated as `{u(alloc[0])}`",
+                  construct=f"mask allocation {_rename(alloc[0], {A: 'A', B: 'B'})}")
+        stores = [s for s in stmts_local(fn) if isinstance(s, ast.Assign) and isinstance(s.targets[0], ast.Subscript)
+                  and u(s.targets[0].value) == r2]
+        ok_store = len(stores) == 1 and isinstance(stores[0].value, ast.Constant) and stores[0].value.value is True \
+            and isinstance(stores[0].targets[0].slice, ast.Name) and kind(stores[0].targets[0].slice.id) == "positions"
+        ctx.check("R6", ok_store, mod, q, stores[0] if stores else rets[0],
+                  f"the mask is set True exactly at the columns of `{A}` that have a hit; found {[u(s) for s in stores]}",
+                  construct="mask set at hit positions")
+    else:
+        clo = _closure(defs, r2)
+        if I not in clo:
+            ctx.check("R6", False, mod, q, rets[0], f"the membership mask `{r2}` is not derived from the query result",
+                      construct="mask derived from the query")
+        else:
+            raise Undecided(f"{q}: membership mask `{r2}` built in an unknown way")
+    ctx.sample({"rule": "R6", "query": u(qc), "results": [r0, r1, r2, r3], "kinds": [k0, k1]})
+
+
+def _check_ismember(ctx: Ctx, mod) -> None:
+    q = "ismember_columns"
+    fn = mod.func(q)
+    params = [a.arg for a in fn.args.args]
+    if len(params) < 2:
+        raise AnchorError(f"{q}: expected parameters (a, b, ...)")
+    A, B = params[:2]
+    defs = _defs_map(fn)
+    rets = [s for s in walk_local(fn) if isinstance(s, ast.Return)]
+    if len(rets) != 1 or not isinstance(rets[0].value, ast.Tuple) or len(rets[0].value.elts) != 2:
+        raise AnchorError(f"{q}: expected one `return mask, index`")
+
+    def single(name):
+        d = defs.get(name, [])
+        return d[0] if len(d) == 1 else None
+
+    def resolve(e, depth=0):
+        """follow single-assignment locals"""
+        while isinstance(e, ast.Name) and single(e.id) is not None and depth < 6:
+            e = single(e.id)
+            depth += 1
+        return e
+    M_e, OUT_e = rets[0].value.elts
+    m_def = resolve(M_e)
+    if not (isinstance(m_def, ast.Call) and call_name(m_def) in ("isin", "in1d") and len(m_def.args) >= 2):
+        raise Undecided(f"{q}: membership mask `{u(m_def)[:60]}` is not np.isin(<ids of a>, <ids of b>)")
+    # the two id vectors: slices of the inverse map
+    def split_of(e):
+        e = resolve(e)
+        if isinstance(e, ast.Subscript) and isinstance(e.slice, ast.Slice) and e.slice.step is None and isinstance(e.value, ast.Name):
+            lo, hi = e.slice.lower, e.slice.upper
+            if lo is None and hi is not None:
+                return e.value.id, "head", hi
+            if hi is None and lo is not None:
+                return e.value.id, "tail", lo
+        return None
+    s1, s2 = split_of(m_def.args[0]), split_of(m_def.args[1])
+    if s1 is None or s2 is None or s1[0] != s2[0]:
+        raise Undecided(f"{q}: arguments of `{u(m_def)}` are not a head/tail split of one inverse map")
+    IND = s1[0]
+    # stacking
+    uniq = [e for e in defs.get(IND, []) if isinstance(e, ast.Call) and call_name(e) == "unique"]
+    if not uniq:
+        raise Undecided(f"{q}: `{IND}` does not come from np.unique(..., return_inverse=True)")
+    stacked = None
+    for uq in uniq:
+        flags = [k.arg for k in uq.keywords if k.arg and k.arg.startswith("return_") and isinstance(k.value, ast.Constant) and k.value.value]
+        ctx.check("R7", flags == ["return_inverse"], mod, q, uq,
+                  f"`{IND}` must be the inverse map (class id per stacked column); np.unique is asked for {flags}",
+                  construct=f"unique flags {flags}")
+        ax = kwarg(uq, "axis")
+        if ax is not None:
+            ctx.check("R7", isinstance(ax, ast.Constant) and ax.value in (1, -1), mod, q, uq,
+                      f"set members are columns: uniqueness along axis=1; found axis={u(ax)}", construct=f"unique axis {u(ax)}")
+        c0 = resolve(uq.args[0]) if uq.args else None
+        if stacked is None:
+            stacked = c0
+        elif u(stacked) != u(c0):
+            raise Undecided(f"{q}: the np.unique calls work on different arrays")
+    if not (isinstance(stacked, ast.Call) and call_name(stacked) in ("hstack", "concatenate", "column_stack") and stacked.args
+            and isinstance(stacked.args[0], (ast.Tuple, ast.List)) and len(stacked.args[0].elts) == 2):
+        raise Undecided(f"{q}: stacked array `{u(stacked)[:60] if stacked is not None else None}` is not np.hstack((<a>, <b>))")
+    X, Y = stacked.args[0].elts
+
+    def origin(e):
+        """which parameter an operand of the stack comes from, and how: {(param, 'raw'|'sorted0'|'sorted?')}"""
+        out = set()
+        exprs = defs.get(e.id, []) if isinstance(e, ast.Name) and e.id not in (A, B) else [e]
+        for d in exprs:
+            if isinstance(d, ast.Name) and d.id in (A, B):
+                out.add((d.id, "raw"))
+            elif isinstance(d, ast.Call) and call_name(d) == "sort" and d.args and isinstance(d.args[0], ast.Name) and d.args[0].id in (A, B):
+                ax = kwarg(d, "axis") or (d.args[1] if len(d.args) > 1 else None)
+                out.add((d.args[0].id, "sorted0" if isinstance(ax, ast.Constant) and ax.value == 0 else f"sorted(axis={u(ax) if ax is not None else 'default'})"))
+            else:
+                out.add((None, u(d)[:40]))
+        return out
+    ox, oy = origin(X), origin(Y)
+    if any(p is None for p, _ in ox | oy):
+        raise Undecided(f"{q}: operands of the stack are not the (sorted) parameters: {sorted(map(str, ox | oy))}")
+    px, py = {p for p, _ in ox}, {p for p, _ in oy}
+    if len(px) != 1 or len(py) != 1 or px == py:
+        raise Undecided(f"{q}: operands of the stack mix the parameters: {px}, {py}")
+    first, second = px.pop(), py.pop()
+    ctx.check("R7", {k for _, k in ox} == {k for _, k in oy} and {k for _, k in ox} <= {"raw", "sorted0"}, mod, q, stacked,
+              f"both sets must be prepared the same way (both sorted within each column, axis=0, or both raw); "
+              f"`{first}`: {sorted(k for _, k in ox)}, `{second}`: {sorted(k for _, k in oy)}",
+              construct=f"stack operands {sorted(k for _, k in ox)} / {sorted(k for _, k in oy)}")
+    # the two preparations must happen in the same arms
+    pmap = parent_map(fn)
+    if isinstance(X, ast.Name) and isinstance(Y, ast.Name) and X.id not in (A, B):
+        arms_x = [(id(pmap.get(s)), type(s.value).__name__) for s in stmts_local(fn) if isinstance(s, ast.Assign) and u(s.targets[0]) == X.id]
+        arms_y = [(id(pmap.get(s)), type(s.value).__name__) for s in stmts_local(fn) if isinstance(s, ast.Assign) and u(s.targets[0]) == Y.id]
+        ctx.check("R7", arms_x == arms_y, mod, q, stacked, "the two sets are sorted / left raw in the same branches",
+                  construct="parallel preparation of a and b")
+    # split consistent with the stacking order
+    part = {s1[1]: m_def.args[0], s2[1]: m_def.args[1]}
+    bound1, bound2 = resolve(s1[2]), resolve(s2[2])
+    if u(bound1) != u(bound2):
+        ctx.check("R7", False, mod, q, m_def, f"head and tail of `{IND}` are cut at different positions (`{u(bound1)}` / `{u(bound2)}`)",
+                  construct="split bound")
+        return
+    first_name = X.id if isinstance(X, ast.Name) else first
+    ok_bound = isinstance(bound1, ast.Subscript) and isinstance(bound1.value, ast.Attribute) and bound1.value.attr == "shape" \
+        and u(bound1.slice) in ("-1", "1") and u(bound1.value.value) in (first_name, first)
+    if not ok_bound and not (isinstance(bound1, ast.Subscript) and isinstance(bound1.value, ast.Attribute) and bound1.value.attr == "shape"):
+        raise Undecided(f"{q}: split position `{u(bound1)}` not recognised")
+    ctx.check("R7", ok_bound, mod, q, m_def,
+              f"the stacked columns are [{first} | {second}]; the inverse map must be cut after the number of columns of "
+              f"`{first}`; it is cut at `{u(bound1)}`", construct=f"split at {_rename(bound1, {A: 'A', B: 'B'})} for stack [{first}|{second}]")
+    # roles: ids of a = the part belonging to parameter A
+    ids_of = {first: "head", second: "tail"}
+    arg0_part, arg1_part = s1[1], s2[1]
+    ctx.check("R7", (arg0_part, arg1_part) == (ids_of[A], ids_of[B]), mod, q, m_def,
+              f"the mask answers 'is column of `{A}` in `{B}`': np.isin(<ids of {A}>, <ids of {B}>); the arguments are the "
+              f"{arg0_part} and the {arg1_part} of the inverse map of [{first} | {second}]",
+              construct=f"isin({arg0_part}, {arg1_part}) for stack [{first}|{second}]")
+    # index output: sort_ind[searchsorted(ids_b[sort_ind], ids_a[mask])]
+    out_def = resolve(OUT_e)
+    IA_txt, IB_txt = u(m_def.args[0]), u(m_def.args[1])
+    M_txt = u(M_e)
+    if isinstance(out_def, ast.Call) and call_name(out_def) == "searchsorted":
+        ctx.check("R7", False, mod, q, out_def,
+                  f"np.searchsorted returns positions in the SORTED ids of `{B}`; they must be mapped back through the argsort "
+                  f"to columns of `{B}` (agrees only when the ids of b happen to be ascending)",
+                  construct="index output through argsort of b ids")
+        return
+    if not (isinstance(out_def, ast.Subscript) and isinstance(out_def.value, ast.Name)):
+        raise Undecided(f"{q}: index output `{u(out_def)[:60]}` is not <argsort of b ids>[<positions>]")
+    SI = out_def.value.id
+    si_def = single(SI)
+    ok_si = isinstance(si_def, ast.Call) and call_name(si_def) == "argsort" and si_def.args and u(si_def.args[0]) == IB_txt
+    ctx.check("R7", bool(ok_si), mod, q, out_def,
+              f"positions found in the sorted ids of `{B}` must be mapped back through the same argsort (`np.argsort({IB_txt})`); "
+              f"`{SI}` is `{u(si_def) if si_def is not None else None}`", construct="index output through argsort of b ids")
+    ss = resolve(out_def.slice)
+    if not (isinstance(ss, ast.Call) and call_name(ss) == "searchsorted" and len(ss.args) >= 2):
+        ctx.check("R7", False, mod, q, out_def,
+                  f"the index output must be argsort[searchsorted(sorted ids of {B}, ids of member columns of {A})]; found `{u(out_def)}`",
+                  construct="index output form")
+        return
+    hay, needle = u(ss.args[0]), u(resolve(ss.args[1]))
+    ctx.check("R7", hay in (f"{IB_txt}[{SI}]", f"np.sort({IB_txt})"), mod, q, ss,
+              f"np.searchsorted needs the ids of `{B}` in ascending order (`{IB_txt}[{SI}]`); the haystack is `{hay}`",
+              construct=f"searchsorted haystack sorted: {hay in (f'{IB_txt}[{SI}]', f'np.sort({IB_txt})')}")
+    ctx.check("R7", needle == f"{IA_txt}[{M_txt}]", mod, q, ss,
+              f"only member columns of `{A}` may be searched (`{IA_txt}[{M_txt}]`): for a non-member searchsorted returns an "
+              f"insertion point, not a twin; the needle is `{needle}`", construct="searchsorted needle restricted to members")
+    ctx.sample({"rule": "R7", "stack": [first, second], "inverse": IND, "mask": u(m_def)})
+
+
 def _m(name, old, new, rule, control=False, count=1):
     return dict(name=name, file=FILE, old=old, new=new, rule=rule, control=control, count=count)
 
 
 MUTANTS = [
+    _m("seed-intersect-sets-max-norm", "intersection = a_tree.query_ball_tree(b_tree, tol)",
+       "intersection = a_tree.query_ball_tree(b_tree, tol, p=np.inf)", "R6"),
+    _m("intersect-one-norm", "intersection = a_tree.query_ball_tree(b_tree, tol)", "intersection = a_tree.query_ball_tree(b_tree, tol, p=1)", "R6"),
+    _m("intersect-radius-doubled", "intersection = a_tree.query_ball_tree(b_tree, tol)", "intersection = a_tree.query_ball_tree(b_tree, 2 * tol)", "R6"),
+    _m("intersect-query-direction-swapped", "intersection = a_tree.query_ball_tree(b_tree, tol)", "intersection = b_tree.query_ball_tree(a_tree, tol)", "R6"),
+    _m("intersect-tree-not-transposed", "    b_tree = KDTree(b.T)", "    b_tree = KDTree(b)", "R6"),
+    _m("intersect-mask-sized-by-b", "a_in_b = np.zeros(a.shape[-1], dtype=bool)", "a_in_b = np.zeros(b.shape[-1], dtype=bool)", "R6"),
+    _m("intersect-mask-at-b-indices", "    a_in_b[ia] = True", "    a_in_b[ib] = True", "R6"),
+    _m("intersect-results-swapped", "return ia_unique, ib_unique, a_in_b, intersection", "return ib_unique, ia_unique, a_in_b, intersection", "R6"),
+    _m("intersect-approximate-query", "intersection = a_tree.query_ball_tree(b_tree, tol)", "intersection = a_tree.query_ball_tree(b_tree, tol, eps=0.5)", "R6"),
+    _m("ismember-b-not-sorted", "        sb = np.sort(b, axis=0)", "        sb = b", "R7"),
+    _m("ismember-b-sorted-across-columns", "        sb = np.sort(b, axis=0)", "        sb = np.sort(b, axis=1)", "R7"),
+    _m("ismember-split-at-b-count", "    num_a = sa.shape[-1]", "    num_a = sb.shape[-1]", "R7"),
+    _m("ismember-stack-order-swapped", "    c = np.hstack((sa, sb))", "    c = np.hstack((sb, sa))", "R7"),
+    _m("ismember-isin-swapped", "ismem_a = np.isin(ind_a, ind_b)", "ismem_a = np.isin(ind_b, ind_a)", "R7"),
+    _m("ismember-haystack-unsorted", "ypos = np.searchsorted(ind_b[sort_ind], ind_a[ismem_a])", "ypos = np.searchsorted(ind_b, ind_a[ismem_a])", "R7"),
+    _m("ismember-positions-not-mapped-back", "    ia = sort_ind[ypos]", "    ia = ypos", "R7"),
+    _m("ismember-needle-all-columns", "ypos = np.searchsorted(ind_b[sort_ind], ind_a[ismem_a])", "ypos = np.searchsorted(ind_b[sort_ind], ind_a)", "R7"),
+    _m("ismember-unique-return-index", "_, ind = np.unique(c, axis=1, return_inverse=True)", "_, ind = np.unique(c, axis=1, return_index=True)", "R7"),
     # the D8 finding is present on today's tree (known); these are further breakages
     _m("reference-never-updated", "            cluster_idx += 1\n            cluster_norm = current_norm\n",
        "            cluster_idx += 1\n", "R1"),
